@@ -1,0 +1,19 @@
+//go:build verif
+
+package cache
+
+import "time"
+
+// VerifPeek reports whether an object is stored under hash and when it expires,
+// without touching hit counters or evicting (verification harness only).
+func (c *Cache) VerifPeek(hash string) (found bool, expires time.Time) {
+	v, ok := c.storage.Load(hash)
+	if !ok {
+		return false, time.Time{}
+	}
+	item, ok := v.(*CacheItem)
+	if !ok {
+		return false, time.Time{}
+	}
+	return true, item.Expires
+}
